@@ -53,7 +53,18 @@ job = json.load(sys.stdin)
 cons, out = [], []
 for act in job["actions"]:
     try:
-        if act["a"] == "construct":
+        if act["a"] == "discard":
+            # an anonymizer that is built, used and thrown away (its memory may be re-used by the next one)
+            import gc
+            # (same constructor arguments except the salt, several times: the allocation pattern of the next
+            #  construction repeats, so object identities are likely to be re-used)
+            for rep in range(3):
+                tmp = FileAnonymizer(**act["cfg"])
+                tmp.anonymize_io(io.StringIO(act["text"]), io.StringIO())
+                del tmp
+                gc.collect()
+            out.append({"a": "discard"})
+        elif act["a"] == "construct":
             n = len(h.msgs)
             cons.append((act["cfgid"], FileAnonymizer(**act["cfg"]), [m for m in h.msgs[n:]]))
             fa = cons[-1][1]
@@ -87,6 +98,8 @@ def replay_history(hist):
             procs.append((h["seed"], []))
         elif h["a"] == "construct":
             procs[h["p"] - 1][1].append({"a": "construct", "cfgid": h["cfg"], "cfg": CFGS[h["cfg"]]})
+        elif h["a"] == "discard":
+            procs[h["p"] - 1][1].append({"a": "discard", "cfg": dict(CFGS[h["cfg"]], salt=h["salt"]) if "salt" in h else CFGS[h["cfg"]], "text": INPUTS[h["inp"]]})
         else:
             procs[h["p"] - 1][1].append({"a": "run", "k": h["k"], "inp": h["inp"], "text": INPUTS[h["inp"]]})
     ev = [{"ev": "start"}]
@@ -140,11 +153,13 @@ def main_runs(ck):
     files = {"a.cfg": INPUTS["mixed"], "sub/b.cfg": INPUTS["plain"]}
     for i in range(6):      # several files with distinct secrets: pseudonym numbering follows the processing order
         files["dev%d.cfg" % i] = "hostname dev%d\nenable secret S3cretNo%dXq\nsnmp-server community Comm%dStrZ RO\n" % (i, i, i)
+    # two listed words of which one contains the other, next to reserved words that contain the shorter one
+    files["net.cfg"] = "interface ethernet0\n description netops inet zurnetops ethernet\n ip address 10.1.1.1 255.255.255.0 secondary\n"
     c_text.write_tree(ind, files)
-    for i, hs in enumerate(["0", "1", "2", "3", "random"]):
+    for i, hs in enumerate(["0", "1", "2", "3", "4", "5", "7", "random"]):
         outd = os.path.join(base, "out%d" % i)
         # (a salt whose first character is outside the $9$ alphabet: the fallback salt character must not depend on the process)
-        rc, err = c_text.run_main(["-a", "-p", "-s", "_S1 salt", "-w", ",".join(WORDS), "-n", "65001,12", "-i", ind, "-o", outd], hashseed=hs)
+        rc, err = c_text.run_main(["-a", "-p", "-s", "_S1 salt", "-w", ",".join(WORDS + ["netops", "net"]), "-n", "65001,12", "-i", ind, "-o", outd], hashseed=hs)
         tree = c_text.read_tree(outd) if os.path.isdir(outd) else {}
         if rc != 0:
             ev.append({"ev": "exc", "what": "main rc=%s %s" % (rc, err[-200:])})
@@ -302,7 +317,10 @@ def run(pid, tier):
     base_hist = []
     for cid in CFGS:
         for inp in INPUTS:
+            other = "other" if cid != "other" else "full"
             base_hist.append([{"a": "spawn", "seed": 0}, {"a": "spawn", "seed": 2},
+                              # (process 2 first builds, uses and discards an anonymizer with ANOTHER salt and other options)
+                              {"a": "discard", "p": 2, "cfg": other, "inp": inp}, {"a": "discard", "p": 2, "cfg": cid, "salt": "another salt", "inp": inp},
                               {"a": "construct", "p": 1, "cfg": cid}, {"a": "construct", "p": 2, "cfg": cid},
                               {"a": "run", "p": 1, "k": 1, "inp": inp}, {"a": "run", "p": 2, "k": 1, "inp": inp}, {"a": "run", "p": 1, "k": 1, "inp": inp}])
     with concurrent.futures.ThreadPoolExecutor(max_workers=common.NPROC) as ex:
